@@ -1,1 +1,28 @@
-fn main() {}
+//! mon_dbg: the C17 monitor (pest_debugger under schedule stress). One invocation = one shard
+//! process = one controller thread + at most one parser thread at a time (the debugger's hook
+//! log and delay plan are process-global).
+mod c17;
+
+use vmon::shard::Args;
+
+fn main() {
+    let argv: Vec<String> = std::env::args().collect();
+    let args = Args::parse(&argv);
+    if std::env::var_os("VERIF_SHOW_PANICS").is_none() {
+        vmon::pestrun::quiet_panics();
+    }
+    let a = args.clone();
+    // the reference interpreter recurses; give the workload thread room
+    std::thread::Builder::new()
+        .stack_size(256 << 20)
+        .spawn(move || match a.prop.as_str() {
+            "c17" => c17::run(&a),
+            other => {
+                eprintln!("unknown sub-command {other}");
+                std::process::exit(3);
+            }
+        })
+        .unwrap()
+        .join()
+        .unwrap();
+}
